@@ -55,7 +55,7 @@ Effects(o) ==
        [] o.op = "clean"  -> {[rs |-> Put(rs, n, DoClean(R0, o.prefix)), rep |-> [res |-> "ok"]]}
        [] o.op = "routes" -> {[rs |-> rs, rep |-> [res |-> "ok", routes |-> Routes(R0)]]}
        [] o.op = "url"    -> {[rs |-> rs, rep |-> [res |-> "ok", url |-> URLResult(R0, o.strict, o.pat, o.params, TRUE)]]}
-       [] o.op = "serve"  -> {[rs |-> rs, rep |-> [res |-> "ok", outs |-> ServeOutcomes(R0, o.method, o.path), R |-> R0,
+       [] o.op = "serve"  -> {[rs |-> rs, rep |-> [res |-> "ok", outs |-> ServeOutcomes(R0, o.method, o.path), R |-> R0, later |-> {},
                                                    canon |-> R0.addOnly \/ WitValid(R0, o.wit, o.wps, o.path)]]}
        \* a quiescent group (routers g?a: Hosts a.com, g?b: path version v1): the reply is fixed by the request alone
        [] o.op = "gserve" -> {[rs |-> rs, rep |-> [res |-> "ok",
@@ -73,7 +73,14 @@ Effects(o) ==
 Lin(g) == /\ g \in DOMAIN pend /\ ~pend[g].done
           /\ \E e \in Effects(pend[g].o) :
                 /\ rs' = e.rs
-                /\ pend' = Put(pend, g, [o |-> pend[g].o, done |-> TRUE, rep |-> e.rep])
+                \* a request is TWO reads of the table: the dispatch (its linearization point) and, when the 405 / OPTIONS handler
+                \* runs, Node.AllowHeader() - a separate read section (Lock.tla: r_allow_*). Every table the instance goes
+                \* through while the request is still running is remembered, the Allow header may stem from any of them.
+                /\ pend' = [h \in DOMAIN pend |->
+                              IF h = g THEN [o |-> pend[g].o, done |-> TRUE, rep |-> e.rep]
+                              ELSE IF pend[h].done /\ pend[h].o.op = "serve" /\ pend[h].o.inst \in DOMAIN e.rs
+                                   THEN [pend[h] EXCEPT !.rep.later = @ \cup {e.rs[pend[h].o.inst]}]
+                                   ELSE pend[h]]
           /\ UNCHANGED <<cfg, inuse, l>>
 
 OnlyX(want) == want.rname # "" /\ HasSuffix(want.rname, "c") /\ want.urlPath # "/x"
@@ -85,8 +92,9 @@ Matches(o, rep, r) ==
        [] o.op = "serve"  -> /\ r.r.panic = "none"
                              /\ rep.canon => \E x \in rep.outs : (IF x.kind = "rootopt" THEN "opt" ELSE IF x.kind = "root405" THEN "405" ELSE x.kind) = r.r.kind
                                                                  /\ x.h = r.r.h /\ x.pat = r.r.pat /\ x.params = r.r.params
-                                                                 /\ (x.kind = "rootopt" => RootAllowOK(rep.R, ToSet(r.r.allowH)))
-                                                                 /\ (x.kind \in {"opt", "405"} => ToSet(r.r.allowH) = AllowSet(rep.R, x.pat))
+                                                                 /\ (x.kind = "rootopt" => \E Rx \in {rep.R} \cup rep.later : RootAllowOK(Rx, ToSet(r.r.allowH)))
+                                                                 /\ (x.kind \in {"opt", "405"} =>
+                                                                        \E Rx \in {rep.R} \cup rep.later : x.pat \in Live(Rx) /\ ToSet(r.r.allowH) = AllowSet(Rx, x.pat))
        [] o.op = "gserve" -> /\ r.r.panic = "none" /\ r.r.rname = rep.want.rname /\ r.r.urlPath = rep.want.urlPath
                              /\ (rep.want.rname = "" => r.r.kind = "gnf")
                              \* router g?c serves /x only: anything else is ITS 404
